@@ -322,7 +322,7 @@ class CayleyGraph:
         ans = CayleyGraph(
             new_def,
             _hasher=self.hasher,
-            bit_encoding_width=self.bit_encoding_width,
+            bit_encoding_width=self.string_encoder.w if self.string_encoder is not None else None,
         )
         ans.hasher = self.hasher
         ans.string_encoder = self.string_encoder
